@@ -78,6 +78,9 @@ func (x *X) enc(v ssa.Value, at ssa.Instruction) []Atom {
 			out := append([]Atom(nil), x.enc(cc.Args[1], t)...)
 			return append(out, x.valueAtom(cc.Args[2], w, order, t))
 		}
+		if binAppendCall(t) {
+			return x.encBinAppend(t)
+		}
 		if recv, name, ok := builderMethod(t); ok && (name == "String" || name == "Bytes") {
 			if al, isA := recv.(*ssa.Alloc); isA {
 				return x.encBuilder(al, t)
@@ -119,6 +122,9 @@ func (x *X) enc(v ssa.Value, at ssa.Instruction) []Atom {
 			}
 		}
 		if call, ok := t.Tuple.(*ssa.Call); ok && t.Index == 0 {
+			if binAppendCall(call) {
+				return x.encBinAppend(call)
+			}
 			if tail, bufArg, ok := x.inlineAppender(call); ok {
 				if bufArg == nil {
 					return tail
@@ -750,6 +756,17 @@ func (x *X) minusPrefix(v ssa.Value, p *ssa.Phi) []Atom {
 		}
 	case *ssa.Extract:
 		if call, ok := t.Tuple.(*ssa.Call); ok && t.Index == 0 {
+			if binAppendCall(call) {
+				pre := x.minusPrefix(call.Call.Args[0], p)
+				if pre == nil {
+					return nil
+				}
+				tail, why := x.binDataAtoms(call.Call.Args[2], call.Call.Args[1], call)
+				if why != "" {
+					return append(pre, unknown(call.Pos(), "%s", why)...)
+				}
+				return append(pre, tail...)
+			}
 			if tail, bufArg, ok := x.inlineAppender(call); ok && bufArg != nil {
 				pre := x.minusPrefix(bufArg, p)
 				if pre == nil {
